@@ -483,6 +483,11 @@ func c17Concurrent(c *core.Ctx, idx int) {
 			sp := fmt.Sprintf("%s.csnap%d", path, n%2)
 			_ = os.Remove(sp)
 			startedBefore, doneBefore := restoring.Load(), restoresDone.Load()
+			// where a snapshot would go by default (the migration manager asks the same way), asked while restores swap
+			// the database underneath
+			if dp := s.db.GetDefaultSnapshotPath(); !strings.HasPrefix(dp, path+"-") {
+				c.Violationf("C17 default snapshot path does not name the database", nil, "%q for database %q", dp, path)
+			}
 			_, _, err := s.db.Snapshot(sp)
 			reads.Add(1)
 			c.Eval()
